@@ -18,10 +18,15 @@ EPILOGUE = "    0\n}\nfn main() { let _ = f(1); () }\n"
 GLOBALS = "fn x(q: int32) -> int32 { q }\nfn y(q: int32) -> int32 { q }\n"
 
 
-def render(toks, with_globals=False):
+# a long function body in front of the skeleton: 40 more binders of one other name, each rebinding the previous one
+MANY = "    let z = 0;\n" + "".join("    let z = z + %d;\n" % i for i in range(1, 40))
+
+
+def render(toks, with_globals=False, many=False):
     """returns text, uses [(offset, name, expected_binder_id)], binders {id: offset};
-    with_globals: top-level functions named like the local names exist too (a local binder must still win)"""
-    pre = (GLOBALS if with_globals else "") + PRELUDE
+    with_globals: top-level functions named like the local names exist too (a local binder must still win);
+    many: the skeleton comes after 40 other local binders (resolution must not depend on how many binders are in scope)"""
+    pre = (GLOBALS if with_globals else "") + PRELUDE + (MANY if many else "")
     out = [pre]
     pos = len(pre)
     uses, binders = [], {}
@@ -162,13 +167,20 @@ def run(tier, rep):
                     rep.violation(f"resolution:out-of-scope-use-resolves-to-{u['res']}:blocks=" + "+".join(kinds),
                                   {"program": text, "use": name, "offset": off, "expected": want, "hir_use": u}, replay={"toks": toks})
                     break
+    # ---- and after 40 other binders in the same body
+    mreqs, mmeta = [], []
+    for i, toks in enumerate(progs):
+        text, uses, binders = render(toks, many=True)
+        mreqs.append({"id": i, "text": text})
+        mmeta.append((toks, text, uses, binders))
+    manswers = gv_parallel("hir", mreqs, shards=NCPU)
     shadowing = 0
     unbound_cases = 0
     checked_uses = 0
-    for (toks, text, uses, binders), a in zip(meta, answers):
+    for tag, (toks, text, uses, binders), a in [("", m_, a_) for m_, a_ in zip(meta, answers)] + [(":after-40-binders", m_, a_) for m_, a_ in zip(mmeta, manswers)]:
         cid = canon(toks)
         if a["verdict"] != "ok":
-            rep.violation(f"lowering-{a['verdict']}", {"program": text, "answer": {k: a.get(k) for k in ('verdict', 'msg', 'at', 'diags')}}, replay={"toks": toks})
+            rep.violation(f"lowering-{a['verdict']}{tag}", {"program": text, "answer": {k: a.get(k) for k in ('verdict', 'msg', 'at', 'diags')}}, replay={"toks": toks})
             continue
         real = {u["at"]: u for u in a["uses"] if u["x"] in ("x", "y", "p")}
         off2id = {off: bid for bid, off in binders.items()}
@@ -195,7 +207,7 @@ def run(tier, rep):
             if got != exp:
                 # identity: what kind of block the wrongly chosen binder leaked out of / which rule failed
                 kinds = sorted({t["k"] for t in toks if t["t"] == "open"})
-                ident = "resolution:" + ("unbound-resolved" if exp == 0 else "wrong-binder") + ":blocks=" + "+".join(kinds)
+                ident = "resolution:" + ("unbound-resolved" if exp == 0 else "wrong-binder") + tag + ":blocks=" + "+".join(kinds)
                 rep.violation(ident, {"program": text, "use": name, "offset": off, "expected_binder": exp, "got_binder": got,
                                       "hir_use": u}, replay={"toks": toks})
                 break
@@ -238,7 +250,7 @@ def run(tier, rep):
         rep.sample({"tokens": canon(toks), "expected_resolution": [e for _, _, e in uses], "program": text})
     rep.coverage.update({
         "states": r.distinct + r2.distinct, "transitions": r.generated + r2.generated,
-        "traces_validated_against_impl": len(progs),
+        "traces_validated_against_impl": len(progs) * 3,
         "action_coverage": r.coverage, "uses_checked": checked_uses, "uses_checked_next_to_same_named_functions": global_uses, "skeletons_with_shadowing": shadowing,
         "skeletons_with_unbound_use": unbound_cases, "full_compiles": len(cans), "full_accepted": accepted,
         "full_rejected_with_named_identifier": rejected, "model_config": cfg, "exhaustive": True,
